@@ -549,6 +549,32 @@ int main(int argc, char** argv)
     double scale = argval<double>(kv, "scale", 1.0);
     int dets = argval<int>(kv, "dets", 1);  // callbacks with detector maps
     int diag = argval<int>(kv, "diag", 1);  // ActionDiagnostic + StepDiagnostic
+    std::string script_path = argval<std::string>(kv, "script", "");  // scripted physics (replay of a TLC behaviour)
+    verif::Script script;
+    json script_json;
+    if (!script_path.empty())
+    {
+        std::ifstream in(script_path);
+        in >> script_json;
+        nslots = script_json.value("slots", nslots);
+        initcap = script_json.value("initcap", initcap);
+        order = script_json.value("order", order);
+        secfactor = script_json.value("secfactor", secfactor);
+        for (auto it = script_json["tracks"].begin(); it != script_json["tracks"].end(); ++it)
+        {
+            int tid = std::stoi(it.key());
+            for (auto const& o : it.value())
+            {
+                verif::ScriptedOutcome oc;
+                oc.alive = o["alive"];
+                oc.e1 = o["E1"];
+                oc.dep = o["dep"];
+                for (auto const& sc : o["secs"])
+                    oc.secs.push_back({sc[0].get<int>(), sc[1].get<double>()});
+                script.tracks[{0, tid}].push_back(oc);
+            }
+        }
+    }
 
     Recorder rec;
     g_rec = &rec;
@@ -582,7 +608,19 @@ int main(int argc, char** argv)
             primaries[e].push_back(p);
             total_w += E + (pt == 2 ? 2 * me : 0);
         }
-    rec.quantum = total_w / double(1 << 28);
+    if (!script_path.empty())
+    {
+        // primaries per iteration come from the script; all start at the origin of the inner box
+        total_w = 0;
+        for (auto const& it : script_json["iters"])
+            for (auto const& pj : it["prims"])
+                total_w += pj["E"].get<double>() + (pj["pt"].get<int>() == 2 ? 1.0 : 0.0);
+        // dyadic quantum: every scripted energy (multiples of 1/4 MeV) is an exact number of quanta
+        rec.quantum = 1.0 / 1024;
+        (void)total_w;
+    }
+    else
+        rec.quantum = total_w / double(1 << 28);
 
     // ---- problem ----
     verif::ProblemOptions po;
@@ -592,6 +630,11 @@ int main(int argc, char** argv)
     po.max_events = std::max(nevents, 1);
     po.rng_seed = seed * 7919u + 13u;
     po.table_scale = scale;
+    if (!script_path.empty())
+    {
+        po.script = &script;
+        po.electron_mass = 0.5;
+    }
     {
         std::map<std::string, TrackOrder> om = {{"none", TrackOrder::none},
                                                  {"init_charge", TrackOrder::init_charge},
@@ -756,6 +799,46 @@ int main(int argc, char** argv)
 
         int e = 0;
         bool hung = false;
+        if (!script_path.empty())
+        {
+            stepper.reseed(UniqueEventId{0});
+            rec.add({{"e", "Reseed"}, {"ev", 0}});
+            StepperResult r{};
+            bool first = true;
+            for (auto const& it : script_json["iters"])
+            {
+                std::vector<Primary> prims;
+                for (auto const& pj : it["prims"])
+                {
+                    Primary p;
+                    p.particle_id = ParticleId(pj["pt"].get<int>());
+                    p.energy = units::MevEnergy{pj["E"].get<double>()};
+                    p.position = {0, 0, 0};
+                    p.direction = {0, 0, 1};
+                    p.time = 0;
+                    p.event_id = EventId(0);
+                    prims.push_back(p);
+                }
+                if (!first && !r && prims.empty())
+                    break;
+                r = prims.empty() ? do_step(nullptr) : do_step(&prims);
+                first = false;
+                if (iters > maxsteps)
+                    break;
+            }
+            while (r && iters <= maxsteps)
+                r = do_step(nullptr);
+            if (r)
+            {
+                rec.add({{"e", "Hang"}, {"iters", int(iters)}});
+                hung = true;
+            }
+            else
+                rec.add({{"e", "EventsDone"}, {"upto", 1}});
+            for (auto const& err : script.errors)
+                rec.add({{"e", "OffScript"}, {"what", err}});
+            e = nevents;
+        }
         while (e < nevents && !hung)
         {
             stepper.reseed(UniqueEventId{static_cast<UniqueEventId::size_type>(e)});
